@@ -106,20 +106,14 @@ class World(object):
                 "extra": sum(len(f.cache) for f in self.fns) - sum(1 for r in cache for v in r if v != 0)}
 
 
-def check(ctx):
-    common.import_audiolazy()
-    from audiolazy import cached
-    ctx.rule = ("every transition of the Cached state graph replayed on the real decorator; non-trivial = "
-                "histories of >= 3 operations")
-    ctx.assumptions = ["one thread; argument tuples are hashable unless the operation says otherwise; the underlying "
-                       "function's n-th invocation on key k returns 10*n+k (so that recomputation is observable)"]
+def graph(ctx, cached, cfg, what):
+    """M1 on one configuration + M2: every transition of its graph replayed on the real decorator."""
     d = tlc.scratch_dir("x07")
     dot = os.path.join(d, "g.dot")
-    cfg = "Cached_thorough.cfg" if ctx.thorough else "Cached_quick.cfg"
     r = tlc.require_ok(tlc.run("Cached", cfg, dump_dot=dot), "Cached",
                        need_actions=("Call", "Index", "Has", "Poke", "Evict", "Clear", "CallUnhashable",
                                      "CallKeyword"))
-    ctx.add_tlc(r, "Cached: memoisation decorator with its exposed dictionary, full reachable graph")
+    ctx.add_tlc(r, what)
     nodes, inits, edges = tlaval.read_dot(dot)
     parent, order, out = graphcover.cover(inits, edges)
     ops_of = {}
@@ -154,6 +148,22 @@ def check(ctx):
         ctx.traces += len(range(ai % stride, len(edges), stride))
     ctx.log("cached: %d states, %d transitions, replayed with %d argument sets, %d differ"
             % (len(nodes), len(edges), len(argsets), nbad))
+
+
+def check(ctx):
+    common.import_audiolazy()
+    from audiolazy import cached
+    ctx.rule = ("every transition of the Cached state graph replayed on the real decorator; non-trivial = "
+                "histories of >= 3 operations")
+    ctx.assumptions = ["one thread; argument tuples are hashable unless the operation says otherwise; the underlying "
+                       "function's n-th invocation on key k returns 10*n+k (so that recomputation is observable)"]
+    # two decorated functions (independence); one function with more invocations (a resident entry CAN be recomputed
+    # by a wrong model or a wrong implementation only when the function may be entered again: with MaxCalls = 1 the
+    # clause NoRecompute would be vacuous - found by harness/specmut.py x07_b)
+    graph(ctx, cached, "Cached_thorough.cfg" if ctx.thorough else "Cached_quick.cfg",
+          "Cached: memoisation decorator with its exposed dictionary, 2 functions, full reachable graph")
+    graph(ctx, cached, "Cached_quick1.cfg",
+          "Cached: 1 function, up to 3 invocations (recomputation possible), full reachable graph")
     m3(ctx, cached)
     ctx.exhaustive = True
 
